@@ -41,6 +41,7 @@ import (
 	"fmt"
 	"strings"
 
+	"verifharness/hx"
 	"verifharness/writers"
 )
 
@@ -66,6 +67,70 @@ type Block struct {
 	Rows  [][]Cell
 	Head  Head  // table: which rows / cells the source marks as header
 	At    Place // table of a worksheet: where on the sheet it lies
+	Cols  Cols  // table: how the source declares the table's columns
+}
+
+// Cols says how the source declares the columns of an authored table, beside its rows (ODT
+// <table:table-column>, DOCX <w:tblGrid>, PPTX <a:tblGrid>, HTML <colgroup>/<col>). The zero value is
+// the spelling the writers had before the field existed (one declaration that covers exactly the
+// grid; HTML: none). A column declaration carries widths and styles; it never changes what the table
+// IS: the rows x columns of cell texts its rows hold. In particular a declaration that names FEWER
+// columns than the rows have cells (a generator that writes one <table:table-column/> whatever the
+// width, a grid that was not updated when a column was added; in HTML the table model says outright
+// that the column count is the maximum of both) takes no cell away: no body text may be lost.
+// Declarations of MORE columns than the rows have are not generated (whether those are empty columns
+// of the table is not said by the property text).
+//
+//	Via 0: exact, the compact spelling (ODT number-columns-repeated="N"; DOCX / PPTX N gridCol; HTML none)
+//	Via 1: exact, one element per column (HTML: <colgroup> with N <col>)
+//	Via 2: exact, grouped (ODT: <table:table-header-columns> with the first column, <table:table-columns>
+//	       with the rest; HTML: <colgroup span="N">; DOCX / PPTX: as Via 1)
+//	Via 3: no declaration (ODT: none — ODF 1.2 9.1.2 wants one, documents in the wild lack it; DOCX / PPTX:
+//	       an empty grid element; HTML: none)
+//	Via 4: Short columns declared, 1 <= Short < width, one element per column
+//	Via 5: Short columns declared through a repeat count (ODT number-columns-repeated="Short", HTML
+//	       <col span="Short">; DOCX / PPTX as Via 4)
+type Cols struct {
+	Via   int
+	Short int
+}
+
+// ColsVias is the number of spellings of a column declaration the writers have.
+const ColsVias = 6
+
+// declared returns how many columns the declaration names for a grid of the given width and whether
+// there is a declaration at all.
+func (c Cols) declared(width int) (n int, any bool) {
+	switch c.Via {
+	case 3:
+		return 0, false
+	case 4, 5:
+		return min(max(c.Short, 1), max(width-1, 1)), true
+	}
+	return width, true
+}
+
+// NumSpelling says how WriteDOCX spells numbering.xml (ECMA-376 17.9). The zero value is the spelling
+// the writer had before the field existed: two abstract numberings (all nine levels bullet / all nine
+// levels decimal, written ilvl 0..8 in order, abstractNumId 0 and 1) shared by a pair of w:num per
+// list block. None of the spellings changes what a list IS: a <w:lvl> is identified by its w:ilvl
+// attribute (17.9.6), an abstractNum by its w:abstractNumId, not by their position in the file.
+//
+//   - Own: a list block whose kind is a function of the depth (every list genDoc makes) gets ONE w:num
+//     with an abstract numbering of its own whose levels have the kinds of the block, bullet and
+//     decimal levels mixed as in Word's multilevel lists; the levels no item uses get the kind the
+//     deepest used level does NOT have.
+//   - Order: the order of the <w:lvl> elements inside every abstractNum: 0 ascending by ilvl, 1
+//     descending, 2 shuffled (from Perm).
+//   - Sparse: only the levels some item uses are defined (own numberings only).
+//   - IDs: 0 abstractNumId 0,1,2,.. in file order; 1 ids 10,13,16,.. and the elements written in
+//     descending id order, the w:num elements last-to-first as well.
+type NumSpelling struct {
+	Own    bool
+	Order  int
+	Sparse bool
+	IDs    int
+	Perm   uint64
 }
 
 // Place says where on its worksheet an authored table lies (XLSX only; the other formats have no
@@ -158,7 +223,8 @@ func HeadingVias(format string) int {
 type Doc struct {
 	Title, Author string
 	Blocks        []Block
-	Breaks        []int // indices of the blocks that begin a new page (paged sources only: ragdocs.go)
+	Num           NumSpelling // DOCX: how numbering.xml is spelled
+	Breaks        []int       // indices of the blocks that begin a new page (paged sources only: ragdocs.go)
 }
 
 // ODTNestedKindFollowsRoot: tabula/odt ignores text:style-name on nested lists (see top comment).
@@ -260,7 +326,10 @@ func wPara(ppr, text string) string {
 func WriteDOCX(d Doc) []byte {
 	var b strings.Builder
 	b.WriteString(xmlHdr + `<w:document ` + wNS + `><w:body>`)
-	lists := 0
+	// numbering: abstracts[0] / abstracts[1] are the shared all-bullet / all-decimal definitions,
+	// nums[i] is the index of the abstract numbering w:num numId=i+1 instantiates
+	abstracts := []docxAbstract{sharedAbstract(false), sharedAbstract(true)}
+	var nums []int
 	for _, bl := range d.Blocks {
 		switch bl.Kind {
 		case "heading":
@@ -278,16 +347,23 @@ func WriteDOCX(d Doc) []byte {
 		case "para":
 			b.WriteString(wPara("", bl.Text))
 		case "list":
+			own, expressible := ownAbstract(bl.Items, d.Num.Sparse)
+			if d.Num.Own && expressible { // one w:num of its own, the kinds are the levels' (see NumSpelling)
+				abstracts = append(abstracts, own)
+				nums = append(nums, len(abstracts)-1)
+			} else { // a pair of w:num: bullet, decimal
+				nums = append(nums, 0, 1)
+			}
 			for _, it := range bl.Items {
-				id := 2*lists + 1
-				if it.Ordered {
-					id++
+				id := len(nums)
+				if !(d.Num.Own && expressible) && !it.Ordered {
+					id--
 				}
 				b.WriteString(wPara(fmt.Sprintf(`<w:pStyle w:val="ListParagraph"/><w:numPr><w:ilvl w:val="%d"/><w:numId w:val="%d"/></w:numPr>`, it.Depth, id), it.Text))
 			}
-			lists++
 		case "table":
-			b.WriteString(`<w:tbl><w:tblPr><w:tblW w:w="0" w:type="auto"/></w:tblPr><w:tblGrid>` + strings.Repeat(`<w:gridCol w:w="2000"/>`, gridCols(bl.Rows)) + `</w:tblGrid>`)
+			declared, _ := bl.Cols.declared(gridCols(bl.Rows))
+			b.WriteString(`<w:tbl><w:tblPr><w:tblW w:w="0" w:type="auto"/></w:tblPr><w:tblGrid>` + strings.Repeat(`<w:gridCol w:w="2000"/>`, declared) + `</w:tblGrid>`)
 			for ri, row := range bl.Rows {
 				b.WriteString(`<w:tr>`)
 				if bl.Head.Set && ri < bl.Head.Rows {
@@ -330,22 +406,47 @@ func WriteDOCX(d Doc) []byte {
 
 	var nu strings.Builder
 	nu.WriteString(xmlHdr + `<w:numbering ` + wNS + `>`)
-	for a, fmtName := range []string{"bullet", "decimal"} {
-		fmt.Fprintf(&nu, `<w:abstractNum w:abstractNumId="%d"><w:multiLevelType w:val="hybridMultilevel"/>`, a)
-		for l := 0; l < 9; l++ {
-			txt := "•"
-			if a == 1 {
-				txt = fmt.Sprintf("%%%d.", l+1)
+	absID := func(a int) int {
+		if d.Num.IDs == 1 {
+			return 10 + 3*a
+		}
+		return a
+	}
+	fileOrder := func(n int) []int { // positions 0..n-1 in the order the elements are written
+		o := make([]int, n)
+		for i := range o {
+			o[i] = i
+			if d.Num.IDs == 1 {
+				o[i] = n - 1 - i
 			}
-			fmt.Fprintf(&nu, `<w:lvl w:ilvl="%d"><w:start w:val="1"/><w:numFmt w:val="%s"/><w:lvlText w:val="%s"/><w:lvlJc w:val="left"/><w:pPr><w:ind w:left="%d" w:hanging="360"/></w:pPr></w:lvl>`, l, fmtName, txt, 720*(l+1))
+		}
+		return o
+	}
+	for _, a := range fileOrder(len(abstracts)) {
+		fmt.Fprintf(&nu, `<w:abstractNum w:abstractNumId="%d"><w:multiLevelType w:val="hybridMultilevel"/>`, absID(a))
+		lv := append([]docxLevel(nil), abstracts[a].levels...) // ascending by ilvl
+		switch d.Num.Order {
+		case 1:
+			for i, j := 0, len(lv)-1; i < j; i, j = i+1, j-1 {
+				lv[i], lv[j] = lv[j], lv[i]
+			}
+		case 2:
+			hx.Shuffle(hx.NewRng(d.Num.Perm+uint64(a)), lv)
+		}
+		for _, l := range lv {
+			fmtName, txt := "bullet", "•"
+			if l.ordered {
+				fmtName, txt = "decimal", fmt.Sprintf("%%%d.", l.ilvl+1)
+			}
+			fmt.Fprintf(&nu, `<w:lvl w:ilvl="%d"><w:start w:val="1"/><w:numFmt w:val="%s"/><w:lvlText w:val="%s"/><w:lvlJc w:val="left"/><w:pPr><w:ind w:left="%d" w:hanging="360"/></w:pPr></w:lvl>`, l.ilvl, fmtName, txt, 720*(l.ilvl+1))
 		}
 		nu.WriteString(`</w:abstractNum>`)
 	}
-	if lists == 0 {
-		lists = 1
+	if len(nums) == 0 {
+		nums = []int{0, 1}
 	}
-	for id := 1; id <= 2*lists; id++ {
-		fmt.Fprintf(&nu, `<w:num w:numId="%d"><w:abstractNumId w:val="%d"/></w:num>`, id, (id-1)%2)
+	for _, i := range fileOrder(len(nums)) {
+		fmt.Fprintf(&nu, `<w:num w:numId="%d"><w:abstractNumId w:val="%d"/></w:num>`, i+1, absID(nums[i]))
 	}
 	nu.WriteString(`</w:numbering>`)
 
@@ -360,6 +461,48 @@ func WriteDOCX(d Doc) []byte {
 		member("word/numbering.xml", nu.String()),
 		member("docProps/core.xml", coreXML(d)),
 	})
+}
+
+// docxLevel is one <w:lvl> of an abstract numbering; docxAbstract holds its levels ascending by ilvl.
+type docxLevel struct {
+	ilvl    int
+	ordered bool
+}
+type docxAbstract struct{ levels []docxLevel }
+
+func sharedAbstract(ordered bool) docxAbstract {
+	var a docxAbstract
+	for l := 0; l < 9; l++ {
+		a.levels = append(a.levels, docxLevel{l, ordered})
+	}
+	return a
+}
+
+// ownAbstract returns the abstract numbering of a list block of its own: every depth an item uses
+// with the kind of the items at that depth (ok = false when two items of one depth differ in kind: no
+// single numbering expresses the block); the other levels 0..8, unless sparse, with the kind the
+// deepest used level does not have.
+func ownAbstract(items []Item, sparse bool) (a docxAbstract, ok bool) {
+	kind := map[int]bool{}
+	deepest := -1
+	for _, it := range items {
+		if k, seen := kind[it.Depth]; seen && k != it.Ordered {
+			return a, false
+		}
+		kind[it.Depth] = it.Ordered
+		deepest = max(deepest, it.Depth)
+	}
+	if deepest < 0 || deepest > 8 {
+		return a, false
+	}
+	for l := 0; l < 9; l++ {
+		if k, used := kind[l]; used {
+			a.levels = append(a.levels, docxLevel{l, k})
+		} else if !sparse {
+			a.levels = append(a.levels, docxLevel{l, !kind[deepest]})
+		}
+	}
+	return a, true
 }
 
 // ---------------------------------------------------------------- nested lists (ODT, HTML)
@@ -476,6 +619,31 @@ func odtListStyle(name string, pat []byte) string {
 	return s + `</text:list-style>`
 }
 
+// odtColumns writes the column declaration of a table (ODF 1.2 part 1, 9.1.6 / 9.1.12; see Cols).
+func odtColumns(c Cols, width int) string {
+	const col = `<table:table-column/>`
+	repeated := func(n int) string {
+		if n == 1 {
+			return col // number-columns-repeated defaults to 1
+		}
+		return fmt.Sprintf(`<table:table-column table:number-columns-repeated="%d"/>`, n)
+	}
+	n, any := c.declared(width)
+	switch {
+	case !any:
+		return ""
+	case c.Via == 1 || c.Via == 4:
+		return strings.Repeat(col, n)
+	case c.Via == 2 && n >= 2:
+		return `<table:table-header-columns>` + col + `</table:table-header-columns><table:table-columns>` + repeated(n-1) + `</table:table-columns>`
+	case c.Via == 2:
+		return `<table:table-columns>` + col + `</table:table-columns>`
+	case c.Via == 5:
+		return repeated(n)
+	}
+	return fmt.Sprintf(`<table:table-column table:number-columns-repeated="%d"/>`, n)
+}
+
 func WriteODT(d Doc) []byte {
 	var b, auto strings.Builder
 	autoSeen := map[string]bool{}
@@ -526,7 +694,7 @@ func WriteODT(d Doc) []byte {
 			}, `</text:list-item>`))
 		case "table":
 			tables++
-			fmt.Fprintf(&b, `<table:table table:name="Table%d"><table:table-column table:number-columns-repeated="%d"/>`, tables, gridCols(bl.Rows))
+			fmt.Fprintf(&b, `<table:table table:name="Table%d">%s`, tables, odtColumns(bl.Cols, gridCols(bl.Rows)))
 			hdr := 0
 			if bl.Head.Set {
 				hdr = min(bl.Head.Rows, len(bl.Rows))
@@ -630,7 +798,7 @@ func (s *pptxSlide) flushBody() {
 	}
 }
 
-func (s *pptxSlide) table(rows [][]Cell, head Head) {
+func (s *pptxSlide) table(rows [][]Cell, head Head, cols Cols) {
 	s.flushBody()
 	firstRow := 1
 	if head.Set && head.Rows == 0 {
@@ -638,10 +806,11 @@ func (s *pptxSlide) table(rows [][]Cell, head Head) {
 	}
 	s.nextID++
 	n := gridCols(rows)
+	declared, _ := cols.declared(n)
 	const colW, rowH = 1500000, 370840
 	fmt.Fprintf(&s.shapes, `<p:graphicFrame><p:nvGraphicFramePr><p:cNvPr id="%d" name="Table %d"/><p:cNvGraphicFramePr><a:graphicFrameLocks noGrp="1"/></p:cNvGraphicFramePr><p:nvPr/></p:nvGraphicFramePr>`+
 		`<p:xfrm><a:off x="457200" y="1600200"/><a:ext cx="%d" cy="%d"/></p:xfrm><a:graphic><a:graphicData uri="http://schemas.openxmlformats.org/drawingml/2006/table"><a:tbl><a:tblPr firstRow="%d"/><a:tblGrid>%s</a:tblGrid>`,
-		s.nextID, s.nextID-1, colW*n, rowH*len(rows), firstRow, strings.Repeat(fmt.Sprintf(`<a:gridCol w="%d"/>`, colW), n))
+		s.nextID, s.nextID-1, colW*n, rowH*len(rows), firstRow, strings.Repeat(fmt.Sprintf(`<a:gridCol w="%d"/>`, colW), declared))
 	const empty = `<a:txBody><a:bodyPr/><a:lstStyle/><a:p/></a:txBody><a:tcPr/></a:tc>`
 	for _, row := range rows {
 		fmt.Fprintf(&s.shapes, `<a:tr h="%d">`, rowH)
@@ -700,7 +869,7 @@ func WritePPTX(d Doc) []byte {
 				cur().body = append(cur().body, aPara(fmt.Sprintf(`<a:pPr lvl="%d">%s</a:pPr>`, it.Depth, bu), it.Text))
 			}
 		case "table":
-			cur().table(bl.Rows, bl.Head)
+			cur().table(bl.Rows, bl.Head, bl.Cols)
 		}
 	}
 	cur()
@@ -786,6 +955,17 @@ func htmlTable(bl Block) string {
 	}
 	var b strings.Builder
 	b.WriteString("<table>")
+	// the column declaration (HTML 4.9.3 / 4.9.4); the table model takes the column count from the rows as well
+	if n, any := bl.Cols.declared(gridCols(rows)); any {
+		switch bl.Cols.Via {
+		case 1, 4:
+			b.WriteString("<colgroup>" + strings.Repeat("<col>", n) + "</colgroup>")
+		case 2:
+			fmt.Fprintf(&b, `<colgroup span="%d"></colgroup>`, n)
+		case 5:
+			fmt.Fprintf(&b, `<colgroup><col span="%d"></colgroup>`, n)
+		}
+	}
 	open := ""
 	group := func(name string) {
 		if open == name {
